@@ -54,6 +54,7 @@ type c09pScn struct {
 	annoKind                       int // 0 none 1 resources 2 reservedCPUs(+resources) 3 garbage 4 empty string 5 empty object
 	annoC, annoM                   int64
 	annoCPUs                       int
+	annoPolicy                     int // applyPolicy of the reservation annotation: 0 absent 1 "" 2 Default 3 ReservedCPUsOnly 4 unknown string
 	sysC, sysM                     int64
 	hasUpd                         bool
 	upd                            int64
@@ -129,13 +130,13 @@ func c09pBuild(s *c09pScn) (*configuration.ColocationStrategy, *corev1.Node, *co
 			nr.ReservedCPUs = fmt.Sprintf("0-%d", s.annoCPUs-1)
 		}
 		b, _ := json.Marshal(nr)
-		node.Annotations = map[string]string{extension.AnnotationNodeReservation: string(b)}
+		node.Annotations = map[string]string{extension.AnnotationNodeReservation: c09pApplyPolicy(string(b), s.annoPolicy)}
 	case 3:
 		node.Annotations = map[string]string{extension.AnnotationNodeReservation: "{not json"}
 	case 4:
 		node.Annotations = map[string]string{extension.AnnotationNodeReservation: ""}
 	case 5:
-		node.Annotations = map[string]string{extension.AnnotationNodeReservation: "{}"}
+		node.Annotations = map[string]string{extension.AnnotationNodeReservation: c09pApplyPolicy("{}", s.annoPolicy)}
 	}
 	pl := &corev1.PodList{}
 	phases := []corev1.PodPhase{corev1.PodRunning, corev1.PodPending, corev1.PodSucceeded, corev1.PodFailed, corev1.PodUnknown}
@@ -184,6 +185,22 @@ func c09pBuild(s *c09pScn) (*configuration.ColocationStrategy, *corev1.Node, *co
 			Usage: slov1alpha1.ResourceMap{ResourceList: c09pRL(a.cpu, a.mem)}})
 	}
 	return st, node, pl, &framework.ResourceMetrics{NodeMetric: nm}
+}
+
+// c09pApplyPolicy writes the applyPolicy key into a marshalled reservation annotation.  The policy tells the SCHEDULER
+// whether to trim the node's allocatable; the mid formula (getUnallocated) subtracts the declared amounts under every
+// policy, so annoProj does not look at it.
+var c09pApplyPolicies = []string{"", "", "Default", "ReservedCPUsOnly", "SomethingElse"}
+
+func c09pApplyPolicy(js string, policy int) string {
+	if policy <= 0 || len(js) < 2 || js[len(js)-1] != '}' {
+		return js
+	}
+	sep := ","
+	if js == "{}" {
+		sep = ""
+	}
+	return js[:len(js)-1] + sep + fmt.Sprintf("%q:%q}", "applyPolicy", c09pApplyPolicies[policy])
 }
 
 func (s *c09pScn) annoProj() (int64, int64) {
@@ -469,6 +486,7 @@ func c09pGen(r *vRand) *c09pScn {
 	s.annoKind = []int{0, 0, 0, 1, 1, 2, 3, 4, 5}[r.Intn(9)]
 	s.annoC, s.annoM = c09pAmount(r, cpuHi/8), c09pAmount(r, memHi/8)
 	s.annoCPUs = r.Range(1, 8)
+	s.annoPolicy = []int{0, 0, 1, 2, 3, 3, 3, 4}[r.Intn(8)]
 	s.sysC, s.sysM = c09pAmount(r, cpuHi/6), c09pAmount(r, memHi/6)
 	s.hasUpd = !r.Chance(1, 15)
 	lim := s.degradeMin * 60
@@ -597,6 +615,9 @@ func TestVerifC09MidPlugin(t *testing.T) {
 			h.Obs("mixed")
 		}
 		h.Tag(fmt.Sprintf("out:%s", []string{"mid", "degraded", "error", "mixed"}[kind]))
+		if s.annoKind == 1 || s.annoKind == 2 || s.annoKind == 5 {
+			h.Tag(fmt.Sprintf("reservation-anno:kind=%d,applyPolicy=%d", s.annoKind, s.annoPolicy))
+		}
 		// Prepare on a copy of the node that already carries some old mid amounts
 		nr := framework.NewNodeResource(items...)
 		newNode := node.DeepCopy()
@@ -659,7 +680,7 @@ func TestVerifC09MidPlugin(t *testing.T) {
 		h.End()
 	}
 	h.Close("mid plugin glue: strategy (mode nil/static/other, five percentages set/nil/0/100/>100, degrade time), node (capacity, allocatable incl. nil map, " +
-		"reservation annotation resources/reservedCPUs/garbage/empty), NodeMetric (fresh/stale/boundary/missing update time, system usage, host apps of all priorities, " +
+		"reservation annotation resources/reservedCPUs/garbage/empty x applyPolicy absent/empty/Default/ReservedCPUsOnly/unknown), NodeMetric (fresh/stale/boundary/missing update time, system usage, host apps of all priorities, " +
 		"node usage valid/nil/partial, prod-reclaimable nil/empty/present), 0-5 pods of all priority/QoS forms and phases; Calculate -> NewNodeResource -> Prepare -> NeedSync " +
 		"against an old amount on/around the diff boundary; non-trivial = a positive published mid amount; distinct by op lines")
 }
